@@ -179,6 +179,7 @@ class GridInterpolationKernel(GridKernel):
                     device=self.grid[0].device,
                 )
                 self.update_grid(grid)
+                self.has_initialized_grid.fill_(True)
 
         base_lazy_tsr = to_linear_operator(self._inducing_forward(last_dim_is_batch=last_dim_is_batch, **params))
         if last_dim_is_batch and base_lazy_tsr.size(-3) == 1:
